@@ -2,6 +2,7 @@ import Pycoin.Model.Sign
 import Pycoin.Proofs.SignDer
 import Pycoin.Proofs.SignEval
 import Pycoin.Proofs.SignLink
+import Pycoin.Proofs.SignOrder
 /-!
 C05 — property theorems about the signer model (`Model/Sign.lean`).
 
@@ -11,6 +12,8 @@ C05 — property theorems about the signer model (`Model/Sign.lean`).
 * `C05_lowS_preserves_verify_partial`;
 * `C05_p2pkh_valid`, `C05_p2pk_valid`, `C05_p2wpkh_valid`, `C05_p2sh_p2wpkh_valid` (+ `_signed_valid` forms): `VerifyScript` of
   `Spec/Consensus.lean` accepts the solutions, for every flag set under which signature and key pass the encoding rules;
+* `C05_partial_order_independent_partial`, `C05_partial_placeholders`, `C05_placeholder_invalid_partial`: partial multisig
+  signing;
 * `C05_sign_frame`, `C05_sign_frame_empty`: nothing but script and witness of the chosen, not yet valid inputs changes.
 -/
 namespace Pycoin.Sign
@@ -231,6 +234,7 @@ theorem C05_solver_emits_canonical (C : Crypto) (hN : C.order = secp256k1N) (hC 
     · rename_i ex hloop
       simp only [Except.ok.injEq] at h
       subst h
+      unfold assemble at hb
       have hb' := List.mem_of_mem_take hb
       rcases List.mem_append.mp hb' with hb' | hb'
       · simp only [List.mem_map] at hb'
@@ -387,6 +391,98 @@ def standardFlags : Flags := Flags.ofBits 0xFFFF
 
 example : standardFlags.strictenc = true ∧ standardFlags.lowS = true ∧ standardFlags.cleanstack = true ∧
     standardFlags.witness = true ∧ standardFlags.p2sh = true ∧ standardFlags.nullfail = true := by decide
+
+/-! ## partial signing -/
+
+/-- **Order independence of partial signing (combinatorial half).**  The list handed to the signature variables depends only
+on the *multiset* of `(key index, signature)` pairs collected — re-found in the input plus freshly made — not on the order in
+which they were collected, i.e. not on the order of earlier signing passes.
+Extra hypothesis relative to the property (hence `_partial`): that two orders of passes lead to the same multiset, which
+holds when ECDSA-verify accepts each emitted signature for its own key and for no other listed key (C01 + unforgeability);
+the harness checks the full statement on the implementation for every order of passes (n ≤ 4) and sampled beyond. -/
+theorem C05_partial_order_independent_partial (nSigs : Nat) (placeholder : Option Bytes) (ex₁ ex₂ : List (Int × Bytes))
+    (h : ex₁.Perm ex₂) : assemble nSigs placeholder ex₁ = assemble nSigs placeholder ex₂ := by
+  unfold assemble
+  have hl : ex₁.length = ex₂.length := h.length_eq
+  cases placeholder with
+  | none => simp only [sortSigs_eq_of_perm h]
+  | some ph =>
+    simp only [hl]
+    rw [sortSigs_eq_of_perm (List.Perm.append_right _ h)]
+
+theorem sigLe_refl (a : Int × Bytes) : sigLe a a = true := by
+  unfold sigLe; simp [bytesLt_irrefl]
+
+/-- with `k` missing signatures the placeholder sits in the first `k` slots and the signatures follow by key index -/
+theorem sortSigs_padded (ex : List (Int × Bytes)) (ph : Bytes) (k : Nat) (hidx : ∀ p ∈ ex, 0 ≤ p.1) :
+    sortSigs (ex ++ List.replicate k ((-1 : Int), ph)) = List.replicate k ((-1 : Int), ph) ++ sortSigs ex := by
+  apply List.Perm.eq_of_pairwise (le := fun x y => sigLe x y = true)
+  · intro a b _ _ h1 h2; exact sigLe_antisymm a b h1 h2
+  · exact sortSigs_sorted _
+  · rw [List.pairwise_append]
+    refine ⟨?_, sortSigs_sorted ex, ?_⟩
+    · rw [List.pairwise_replicate]
+      right; exact sigLe_refl _
+    · intro a ha b hb
+      rw [List.mem_replicate] at ha
+      have hb' := (sortSigs_perm ex).subset hb
+      have := hidx b hb'
+      rw [ha.2]
+      unfold sigLe
+      have : (-1 : Int) < b.1 := by omega
+      simp [this]
+  · exact (sortSigs_perm _).trans (List.perm_append_comm.trans (List.Perm.append_left _ (sortSigs_perm ex).symm))
+
+/-- **Complete exactly when `m` signatures are there.**  With `j ≤ m` collected signatures (key indices ≥ 0) the result is
+`m − j` placeholders followed by the `j` signatures in key-index order: no placeholder iff `j = m`. -/
+theorem C05_partial_placeholders (nSigs : Nat) (ph : Bytes) (ex : List (Int × Bytes)) (hidx : ∀ p ∈ ex, 0 ≤ p.1)
+    (hle : ex.length ≤ nSigs) :
+    assemble nSigs (some ph) ex =
+      List.replicate (nSigs - ex.length) (some ph) ++ (sortSigs ex).map (fun t => some t.2) := by
+  unfold assemble
+  simp only [sortSigs_padded ex ph _ hidx]
+  have hlen : (sortSigs ex).length = ex.length := (sortSigs_perm ex).length_eq
+  simp only [List.map_append, List.map_replicate, List.length_append, List.length_replicate, List.length_map, hlen]
+  have : nSigs - (nSigs - ex.length + ex.length) = 0 := by omega
+  rw [this]
+  simp only [List.replicate_zero, List.append_nil]
+  apply List.take_of_length_le
+  simp [hlen]; omega
+
+
+/-! ## the placeholder -/
+
+/-- the placeholder is a well-formed signature blob: `r = n − 1`, `s = (n − 1)/2`, hash type 1 -/
+theorem placeholder_parses :
+    parseSignatureBlob Gen.Sign.defaultPlaceholder = some ((secp256k1N - 1, (secp256k1N - 1) / 2), 1) := by
+  decide +kernel
+
+/-- **The placeholder is never taken for a signature.**  That `(n − 1, (n − 1)/2)` verifies for no key and digest is an
+instance of ECDSA unforgeability — the explicit hypothesis `hunf` (checked on the implementation for every generated case).
+Under it `_find_signatures` finds nothing in a placeholder: it is not counted as a signature of any listed key, so an input
+that still holds a placeholder has fewer than `m` signatures and is left failing validation. -/
+theorem C05_placeholder_invalid_partial (C : Crypto) (digest : Digest)
+    (hunf : ∀ Q z, C.verify Q z ((secp256k1N - 1 : Nat) : Int) (((secp256k1N - 1) / 2 : Nat) : Int) = .ok false)
+    (maxSigs : Nat) (secKeys : List Bytes) :
+    findSignatures C digest maxSigs secKeys [Gen.Sign.defaultPlaceholder] 0 = .ok ([], []) := by
+  have hk : ∀ (keys : List Bytes) (i : Nat),
+      findKey C digest ((secp256k1N - 1 : Nat) : Int) (((secp256k1N - 1) / 2 : Nat) : Int) 1 keys i = .ok none := by
+    intro keys
+    induction keys with
+    | nil => intro i; rfl
+    | cons k r ih =>
+      intro i
+      simp only [findKey]
+      split
+      · rfl
+      · split
+        · rfl
+        · rw [hunf]; exact ih (i + 1)
+  simp only [findSignatures]
+  split
+  · rfl
+  · rw [placeholder_parses]
+    simp only [hk, findSignatures]
 
 /-! ## frame -/
 
